@@ -22,7 +22,7 @@ done
 cd $ROOT/coq
 { echo "-Q . GV"; echo "-arg -w -arg -all"; ls Common/*.v Model/*.v Gen/*.v Proofs/*.v Props/*.v 2>/dev/null; } > _CoqProject.new
 if ! cmp -s _CoqProject.new _CoqProject || [ ! -e Makefile ]; then mv _CoqProject.new _CoqProject; coq_makefile -f _CoqProject -o Makefile > /dev/null; else rm -f _CoqProject.new; fi
-timeout 3000 make -k -j16 > $ROOT/build/make.log 2>&1
+timeout 3000 make -k -j16 COQC="timeout 900 coqc" > $ROOT/build/make.log 2>&1
 for f in Common/*.v Model/*.v Gen/*.v Proofs/*.v Props/*.v; do
   [ -e "$f" ] || continue
   [ -e "${f}o" ] || echo "BUILD-FAIL $f"
